@@ -1,12 +1,15 @@
 import NLE.Model.Conn
 import NLE.Theorems.C04
+import NLE.Model.LockOrder
+import NLE.Gen.Locks
 /-!
 # C11 — disconnect grace period: demote exactly when it elapses, verify on reconnect
 
 Decision logic of `NLE/Model/Conn.lean` with the regenerated constants; the acceptor `Conn.step` ties it to
 every trace: a demotion the model decides must show as a cleared flag at that very instant, the verification's
-reads are followed read by read.  Absence of deadlocks and crashes is checked by the harness watchdog and the
-lock-order facts of C20, not proved here.
+reads are followed read by read.  Absence of deadlock among the library's mutexes is the ranked lock order below
+(`lock_order_ranked`, `no_mutex_deadlock`: regenerated table of every nested acquisition + the theorem of
+`NLE/Model/LockOrder.lean`); crashes and waits that are not mutexes are left to the harness watchdog.
 -/
 namespace NLE.Theorems.C11
 open NLE NLE.Conn
@@ -91,5 +94,51 @@ example :
     let x := onDisconnect { cfg := sampleCfg, flag := true } 10000000000
     x.timerDue = some 15000000000 ∧ (fire x 14900000000).mustDemote = none ∧ (fire x 15000000000).mustDemote = some 15000000000 := by
   decide
+
+/-! ## No deadlock among the library's mutexes -/
+
+/-- Rank of the library's mutexes, by owning struct: the disconnect handler's first, then the election's, then the
+    connection monitor's. -/
+def muRank : String → Nat
+  | "disconnectHandler" => 0
+  | "kvElection" => 1
+  | "natsConnectionMonitor" => 2
+  | _ => 3
+
+/-- Every mutex acquisition that the code can reach while another mutex of the library may be held (all paths, all call
+    sites, deferred functions included; regenerated table) requests a strictly higher-ranked mutex — in particular no
+    mutex is ever requested by a goroutine that may hold it. -/
+theorem lock_order_ranked : Gen.lockOrder.all (fun e => decide (muRank e.1 < muRank e.2.1)) = true := by decide +kernel
+
+/-- The nested acquisitions as they stand: the grace-timer handler reads the election's run context under its own mutex;
+    `Start` wires the connection monitor under the election's mutex. -/
+theorem lock_order_pairs :
+    (Gen.lockOrder.map fun e => (e.1, e.2.1, e.2.2.1)) =
+      [("disconnectHandler", "kvElection", "kvElection.runContext"),
+       ("kvElection", "natsConnectionMonitor", "natsConnectionMonitor.OnDisconnect"),
+       ("kvElection", "natsConnectionMonitor", "natsConnectionMonitor.OnReconnect"),
+       ("kvElection", "natsConnectionMonitor", "natsConnectionMonitor.Start")] := by decide +kernel
+
+/-- Hence no deadlock among these mutexes: in every snapshot of goroutines whose (held, requested) pairs all come from
+    the table, nobody waits — directly or through others — for itself. -/
+theorem no_mutex_deadlock (s : LockOrder.Snap) (name : Nat → String)
+    (htable : ∀ g m, s.wants g = some m → ∀ h, h ∈ s.holds g → ∃ e ∈ Gen.lockOrder, e.1 = name h ∧ e.2.1 = name m) :
+    ¬ ∃ g, LockOrder.Chain s g g := by
+  apply LockOrder.no_deadlock (rank := fun m => muRank (name m))
+  intro g m hw h hh
+  obtain ⟨e, he, h1, h2⟩ := htable g m hw h hh
+  have := List.all_eq_true.mp lock_order_ranked e he
+  simp only [decide_eq_true_eq] at this
+  rw [h1, h2] at this
+  exact this
+
+/-- The blocking waits that the code can reach while a mutex may be held (channel receives, selects without default,
+    WaitGroup waits, store operations, sleeps, application callbacks): the wait for the promotion goroutine's start
+    signal (which that goroutine gives before it takes any lock: C08 `callback_start_order_shape`) and the connection
+    monitor's wait for its own (empty) wait group.  No store operation, sleep or application callback under a mutex. -/
+theorem waits_under_lock :
+    (Gen.lockWaits.map fun w => (w.1, w.2.1, w.2.2.1, w.2.2.2.1)) =
+      [("chan", "e.promoteStarted", "kvElection", "kvElection.awaitPromoteStarted"),
+       ("wg.Wait", "m.wg", "natsConnectionMonitor", "natsConnectionMonitor.Stop")] := by decide +kernel
 
 end NLE.Theorems.C11
